@@ -1398,7 +1398,7 @@ fn create_unique_identifier(preferred_name: &str, used: &mut HashSet<String>) ->
         !view_set(old(used)@).contains(r@),
         view_set(final(used)@) == view_set(old(used)@).insert(r@),
         final(used)@.len() <= old(used)@.len() + 1,
-        r@ == preferred_name@ || exists|j: int| j >= 2 && r@ == candidate(preferred_name@, j),
+        r@ == preferred_name@ || exists|j: int| j >= 0 && r@ == candidate(preferred_name@, j),
     //@]
 {
     //@[ proof
@@ -1416,13 +1416,16 @@ fn create_unique_identifier(preferred_name: &str, used: &mut HashSet<String>) ->
     }
 
     let mut i = 2;
+    //@[ C05 C07 ghost: the first suffix tried, whatever small number the code starts from
+    let ghost lo = ctr(i);
+    //@]
     loop
-        //@[ C05 C07 loop invariant: every candidate below i is taken, so i stays within the size of the set; the set is untouched
+        //@[ C05 C07 loop invariant: every candidate from the first suffix up to i is taken, so i stays within the size of the set; the set is untouched
         invariant
-            used@ == u0, u0 == old(used)@, u0.len() < 0x7fff_0000, 2 <= ctr(i),
-            forall|j: int| 2 <= j < ctr(i) ==> view_set(u0).contains(#[trigger] candidate(preferred_name@, j)),
-            ctr(i) - 2 <= u0.len(),
-        decreases u0.len() + 2 - ctr(i),
+            used@ == u0, u0 == old(used)@, u0.len() < 0x7fff_0000, 0 <= lo <= 0xffff, lo <= ctr(i),
+            forall|j: int| lo <= j < ctr(i) ==> view_set(u0).contains(#[trigger] candidate(preferred_name@, j)),
+            ctr(i) - lo <= u0.len(),
+        decreases u0.len() + lo - ctr(i),
         //@]
     {
         let name = format!("{}{}", preferred_name, i);
@@ -1436,14 +1439,14 @@ fn create_unique_identifier(preferred_name: &str, used: &mut HashSet<String>) ->
                 // i - 1 distinct candidates are members: the set has at least i - 1 elements
                 let pref = preferred_name@;
                 let f = |j: int| key_of(u0, pref, j);
-                assert forall|j: int| 2 <= j < ctr(i) + 1 implies u0.contains(#[trigger] f(j)) && f(j)@ == candidate(pref, j) by {
+                assert forall|j: int| lo <= j < ctr(i) + 1 implies u0.contains(#[trigger] f(j)) && f(j)@ == candidate(pref, j) by {
                     assert(view_set(u0).contains(candidate(pref, j)));
                     let k = choose|k: String| u0.contains(k) && k@ == candidate(pref, j);
                 }
-                assert forall|j1: int, j2: int| 2 <= j1 < j2 < ctr(i) + 1 implies #[trigger] f(j1) != #[trigger] f(j2) by {
+                assert forall|j1: int, j2: int| lo <= j1 < j2 < ctr(i) + 1 implies #[trigger] f(j1) != #[trigger] f(j2) by {
                     if f(j1) == f(j2) { lemma_candidate_inj(pref, j1, j2); }
                 }
-                lemma_inj_card(u0, f, 2, ctr(i) + 1);
+                lemma_inj_card(u0, f, lo, ctr(i) + 1);
             } else {
                 assert forall|k: String| #[trigger] u0.contains(k) implies k@ != name@ by { if k@ == name@ { assert(view_set(u0).contains(k@)); } }
             }
